@@ -293,6 +293,15 @@ def eval_value(e, ctx, env):
         raise Unsupported('field access in result expression')
     if t == 'block':
         return eval_stmts(e[1], ctx, dict(env), want_value=True)[1]
+    if t == 'match' and len(e[2]) == 2:
+        # `match v { Some(b) => A, None => B }` (either order) is `if let Some(b) = v { A } else { B }`
+        arms = {tuple(pt[:1]): (pt, body) for pt, body in e[2]}
+        if ('Some',) in arms and ('None',) in arms and len(arms[('Some',)][0]) == 4 and arms[('None',)][0] == ['None']:
+            def blk(x):
+                return x if x[0] == 'block' else ('block', [('ret', x)])
+            pt = arms[('Some',)][0]
+            return eval_value(('if', ('iflet', ('pother', pt), e[1]), blk(arms[('Some',)][1]), blk(arms[('None',)][1])), ctx, env)
+        raise Unsupported('match of unexpected shape in a value position')
     if t == 'if' and e[1][0] == 'iflet':
         # `if let Some(b) = opt_value { A } else { B }`: A with b bound; B must be A without the optional part
         _, pat, scrut = e[1]
@@ -327,7 +336,21 @@ def apply_fn(f, outs, ctx, env):
     raise Unsupported('map function of kind %s' % f[0])
 
 
+def normalize_early_return(stmts):
+    """`if C { ..; return X; } REST`  is  `if C { ..; X } else { REST }` (the conditional has no else branch and its block
+    ends in `return`): the form the evaluation knows"""
+    for k, st in enumerate(stmts):
+        if st[0] in ('expr', 'ret') and st[1][0] == 'if' and st[1][3] is None and st[1][2][0] == 'block' and st[1][2][1]:
+            last = st[1][2][1][-1]
+            if last[0] in ('expr', 'ret') and last[1][0] == 'return' and k + 1 < len(stmts):
+                then = ('block', list(st[1][2][1][:-1]) + [('ret', last[1][1])])
+                rest = ('block', normalize_early_return(list(stmts[k + 1:])))
+                return list(stmts[:k]) + [('ret', ('if', st[1][1], then, rest))]
+    return stmts
+
+
 def eval_stmts(stmts, ctx, env, want_value=False):
+    stmts = normalize_early_return(list(stmts))
     cons = []
     for st in stmts:
         if st[0] == 'let':
